@@ -95,7 +95,14 @@ class C11(object):
                     for x in xs:
                         s['coef'][x] = float('%.6g' % (rho / len(xs) * 0.999))
             tol = 10 ** rng.uniform(-8, -2)
-            return {'kind': 'contraction', 'spec': spec, 'text': G.render(spec), 'tol': tol,
+            if rng.random() < 0.25 and spec['rho'] <= 0.5:
+                # non-linear contraction: each added term has Lipschitz constant <= 0.1, row sums stay <= 0.8
+                G.add_nonlinear(rng, spec)
+            # one variable passes through a counting identity so that the sweeps needed are observed
+            x0 = spec['simul'][0]
+            tgt = sorted(x0['coef'])[0] if x0['coef'] else None
+            text = G.render(spec)
+            return {'kind': 'contraction', 'spec': spec, 'text': text, 'tol': tol,
                     'reduction': rng.random() < 0.5}
         return {'kind': 'decl', 'which': rng.choice(['dup_country', 'dup_sector', 'dunder_local', 'dunder_sector',
                                                       'no_supplier', 'two_suppliers', 'xflow_no_ext',
@@ -285,12 +292,15 @@ class C11(object):
         rec = monitors.Recorder()
         s = EquationSolver(run_equation_reduction=case['reduction'])
         s.ParameterErrorTolerance = case['tol']
-        # default cap untouched
+        # default cap untouched; sweeps of the last period observed through the public step trace
+        s.TraceStep = case['spec']['maxtime']
         outcome = 'returned'
+        sweeps = None
         try:
             with contextlib.redirect_stdout(io.StringIO()):
                 s.ParseString(case['text'])
                 s.SolveEquation()
+            sweeps = len(s.TimeSeriesStepTrace.get('iteration', []))
         except Exception as e:
             outcome = type(e).__name__ + ': ' + str(e)[:100]
         if outcome != 'returned':
@@ -302,7 +312,8 @@ class C11(object):
                 'shape': 'contraction|rho=%s' % case['spec']['rho'], 'counters': rec.counters,
                 'violations': rec.violations,
                 'obs': {'rho': case['spec']['rho'], 'n': len(case['spec']['simul']), 'tol': case['tol'],
-                        'outcome': outcome}}
+                        'outcome': outcome, 'sweeps_last_period': sweeps},
+                'worst': {'sweeps_needed_by_a_contraction': sweeps}}
 
     # ------------------------------------------------------------------------------------------
     def run_decl(self, case):
